@@ -4,10 +4,13 @@ CONSTANTS
   Ordering = "minmax"
   ZS = 100
   Z <- MCZ
-  TK = {5,6,8,10,12,16,20,25,30,34,40,47,50,52,53,54,55,60,64,80,100,200,332,500,997,1000,1022,1023,1050,1074}
+  TK = {5,6,8,10,12,16,20,25,30,34,40,47,50,52,53,54,55,60,64,80,100,200,350,500,1000,1010,1022,1023,1050,1074}
   HiMax = 53
   ZTS = 100
-  ZT <- MCZT
+  TD = {2,3,4,5,6,7,8,9,10,11,12,13,14,15,16,17,18,20,30,50,100,200,300,307}
+  HiDecMax = 12
+  ZTCode = {10000,20067,30115,40153,50186,60215,80266,100310,120349,160417,200476,250542,300601,340644,400705,470769,500796,520813,530821,540829,550837,600877,640908,801022,1001148,2001643,3502184,5002617,10003711,10103730,10223752,10233754,10503803,10743847}
+  ZDCode = {20233,30309,40372,50426,60475,70520,80561,90600,100636,110671,120703,130735,140765,150794,160822,170849,180876,200926,301146,501493,1002127,2003021,3003705,3073748}
   Delivery = "by_prior"
   QNum = {0,2,7,10,11,12,13,15,17,24,112,1012}
   QShift = 12
